@@ -36,6 +36,12 @@ type c16P struct {
 	AgeS    int      `json:"age_s"`  // age of the store head at start, seconds
 	Cfgs    []c16Cfg `json:"cfgs"`   // successive (re)configurations, one Syncer run each
 	Gossip  int      `json:"gossip"` // gossip deliveries (one new header each, 1 block time apart) per run
+	// FailTailFetch: the trusted getter fails the first GetByHeight/Get of each run (the tail fetch): Start may then
+	// fail - with an error, not a crash - and must succeed when called again
+	FailTailFetch bool `json:"fail_tail_fetch,omitempty"`
+	// ForgedKnown: after the honest gossip, a signed header for an already known height, dated 3 h later, is
+	// delivered: it must be refused and must not move the tail
+	ForgedKnown bool `json:"forged_known,omitempty"`
 }
 
 const c16Spacing = 6 * time.Second
@@ -126,6 +132,20 @@ func TestC16(t *testing.T) {
 			}
 		}
 	}
+	// the tail fetch fails once (empty and populated stores); a forged header for a known height with a later date
+	for _, ch := range []string{"regular", "dense"} {
+		for _, w := range []int64{int64(5 * time.Minute), int64(time.Hour)} {
+			for _, empty := range []bool{true, false} {
+				p := c16P{Chain: ch, StoreLo: 20, StoreHi: 200, Net: 230, AgeS: 0, Gossip: 1, FailTailFetch: true, Cfgs: []c16Cfg{{WindowNs: w, BTNs: int64(c16Spacing), TPNs: tps[1]}, {WindowNs: w, FromH: "mid", BTNs: int64(c16Spacing), TPNs: tps[1]}}}
+				if empty {
+					p.StoreLo, p.StoreHi = 0, 0
+				}
+				mon.Emit(r, "tail", p, "tail")
+				p.FailTailFetch, p.ForgedKnown = false, true
+				mon.Emit(r, "tail", p, "tail")
+			}
+		}
+	}
 	// the tail is moved down by more than one range request (64 headers) across a restart
 	for _, lo := range []int{70, 100, 150, 200} {
 		for _, fh := range []string{"below-tail", "one"} {
@@ -177,7 +197,12 @@ func c16Run(c *mon.Case, p c16P) {
 		defer w.close()
 		w.g.HeadFn = nil
 		serveUpTo := func(h uint64) bool { return h >= 1 && h <= tipNow() }
+		failNext := false
 		w.g.ByHeightFn = func(_ int, h uint64) (H, error, bool) {
+			if failNext {
+				failNext = false
+				return nil, fmt.Errorf("c16: trusted peers unavailable"), true
+			}
 			if !serveUpTo(h) {
 				return nil, fmt.Errorf("no such height %d", h), true
 			}
@@ -282,10 +307,16 @@ func c16Run(c *mon.Case, p c16P) {
 				c.Violation("accepted-params-rejected/"+shape, fmt.Sprint(err), nil)
 				return
 			}
-			if err := w.start(); err != nil {
-				if storeState == "populated" && time.Since(chain.At(hi).Time()) > time.Duration(cfg.TPNs) && false {
-					_ = err
-				}
+			failNext = p.FailTailFetch
+			err := w.start()
+			if err != nil && p.FailTailFetch && !failNext {
+				// the injected failure was consumed: an error is the right answer; the next attempt has to work
+				c.Count("starts_failed_by_injected_getter_error", 1)
+				shape += "/retry-after-getter-error"
+				err = w.start()
+			}
+			failNext = false
+			if err != nil {
 				c.Violation("start-fails/"+shape, fmt.Sprintf("Start with an honest, fully serving getter: %v", err), nil)
 				return
 			}
@@ -305,6 +336,24 @@ func c16Run(c *mon.Case, p c16P) {
 					c.Violation("gossip-refused/"+shape, fmt.Sprintf("valid adjacent network head %d refused: %v", tipNow(), err), nil)
 				}
 				w.settle()
+			}
+			if p.ForgedKnown {
+				if st0, e0 := w.st.Head(context.Background()); e0 == nil && st0.Height() > 3 {
+					t0, _ := w.st.Tail(context.Background())
+					base := chain.At(st0.Height() - 2)
+					forged := (&vh.Header{Chain: base.Chain, H: base.H, T: time.Now().Add(3 * time.Hour).UnixNano(), Prev: base.Prev, Nonce: 0xF0F0, Signed: true}).Seal()
+					ctx, cancel := context.WithTimeout(context.Background(), time.Minute)
+					ferr := w.sub.deliver(ctx, forged)
+					cancel()
+					w.settle()
+					c.Count("forged_known_height_deliveries", 1)
+					if ferr == nil {
+						c.Violation("forged-known-height-header-accepted/"+shape, fmt.Sprintf("%v (store head %d) was accepted", forged, st0.Height()), nil)
+					}
+					if t1, e1 := w.st.Tail(context.Background()); e1 != nil || t0 == nil || t1.Height() != t0.Height() {
+						c.Violation("forged-known-height-header-moved-the-tail/"+shape, fmt.Sprintf("Tail %v before, %v (%v) after the refused delivery of %v", t0, t1, e1, forged), nil)
+					}
+				}
 			}
 			w.g.setTip(tipNow())
 			hctx, hc := context.WithTimeout(context.Background(), time.Minute)
